@@ -13,9 +13,11 @@ CONSTANTS Conns, MaxReq, Closers,
           NoOnce                \* mutant: close callback without sync.Once
 
 \* exchange kinds and how they end
-Kinds == {"ok", "refused", "upstream_error", "connect_tunnel", "connect_rejected", "upgrade", "mitm_connect",
+\* upgrade_close: an upgrade request that also carries the "close" connection option (the connection is not going
+\* to be an HTTP connection any more anyway): the tunnel is set up and reported like any other
+Kinds == {"ok", "refused", "upstream_error", "connect_tunnel", "connect_rejected", "upgrade", "upgrade_close", "mitm_connect",
           "abort_upload", "abort_download", "connect_write_error"}
-Tunnelled(k) == k \in {"connect_tunnel", "upgrade"}
+Tunnelled(k) == k \in {"connect_tunnel", "upgrade", "upgrade_close"}
 
 VARIABLES pc, kind, nreq, reports,        \* per connection: phase, current exchange kind, requests read, reports for the current request
           readN, wroteN, inflight, total,  \* what the metrics see
